@@ -10,6 +10,7 @@ package httpc
 import (
 	"bytes"
 	"context"
+	"encoding/json"
 	"errors"
 	"fmt"
 	"io"
@@ -818,4 +819,98 @@ func TestVerifC05NoBody(t *testing.T) {
 			}
 		}
 	}
+}
+
+// ---------------------------------------------------------------------------
+// body size extremes around httpx's body limit (8 MiB)
+
+// TestVerifC05BodySize: JSON bodies just below, exactly at and above the parser's size limit, whose
+// members all have default= / optional (so that "no document" would be acceptable): the request is
+// either refused or parsed exactly - never answered with defaults in place of what the body says.
+func TestVerifC05BodySize(t *testing.T) {
+	m := vk.New(t, "C05", "struct whose json members are all optional/defaulted x JSON bodies of 1 KiB, limit-1, limit, limit+1, limit+4 KiB, 2*limit bytes (limit = 8 MiB), real members before or after the padding member, sent to the httptest server (httpx.Parse behind the router) and parsed directly: error, or every member equals the body (audit) - never defaults instead of the body's values")
+	defer m.Done()
+	logx.Disable()
+	const limit = 8 << 20
+	root := g.StructOf(
+		g.F("Size", "size", g.L(g.Int8), g.Opts{HasDefault: true, Default: "7"}),
+		g.F("Sort", "sort", g.L(g.String), g.Opts{Optional: true}),
+		g.F("Tags", "tags", g.SliceOf(g.L(g.String)), g.Opts{HasDefault: true, Default: "[a,b]"}),
+		g.F("Apad", "apad", g.L(g.String), g.Opts{Optional: true}),
+		g.F("Zpad", "zpad", g.L(g.String), g.Opts{Optional: true}),
+		&g.Field{Name: "Q", TagKey: "form", Key: "q", T: g.L(g.Int), O: g.Opts{Optional: true}},
+	)
+	shape := &g.Shape{Root: root, TagKey: "json"}
+	srv := &c05rServer{}
+	srv.srv = httptest.NewServer(srv)
+	defer srv.srv.Close()
+	rt := router.NewRouter()
+	if err := rt.Handle(http.MethodPost, "/c05/big", http.HandlerFunc(srv.parse)); err != nil {
+		t.Fatalf("router: %v", err)
+	}
+	srv.handler, srv.shape = rt, shape
+	idx := 0
+	for _, size := range []int{1 << 10, limit - 1, limit, limit + 1, limit + 4096, 2 * limit} {
+		for _, padKey := range []string{"apad", "zpad"} { // encoding/json sorts keys: padding before / after the real members
+			for _, direct := range []bool{false, true} {
+				idx++
+				if !m.Only(idx) {
+					continue
+				}
+				doc := map[string]any{"size": json.Number("9"), "sort": "desc", "tags": []any{"x", "y"}, padKey: ""}
+				overhead := len(g.JSON(doc))
+				doc[padKey] = strings.Repeat("p", size-overhead)
+				body := g.JSON(doc)
+				d := fmt.Sprintf("case=%d;body=%d bytes (limit %d);padding member=%s;direct=%v;shape=%s", idx, len(body), limit, padKey, direct, shape.String())
+				m.Current(d)
+				full := map[string]any{"q": "3"}
+				for k, v := range doc {
+					full[k] = v
+				}
+				var perr error
+				var pv any
+				var got reflect.Value
+				if direct {
+					rq, _ := http.NewRequest(http.MethodPost, "http://c05.local/c05/big?q=3", bytes.NewReader(body))
+					rq.Header.Set("Content-Type", "application/json")
+					got = shape.New()
+					func() {
+						defer func() { pv = recover() }()
+						perr = httpx.Parse(rq, got.Interface())
+					}()
+				} else {
+					rq, _ := http.NewRequest(http.MethodPost, srv.srv.URL+"/c05/big?q=3", bytes.NewReader(body))
+					rq.Header.Set("Content-Type", "application/json")
+					hit, e, p, gv, terr := srv.send(rq)
+					if terr != nil || !hit {
+						m.Inconclusive("case %d: request did not reach the handler: %v", idx, terr)
+						continue
+					}
+					perr, pv, got = e, p, gv
+				}
+				m.Case(d, true)
+				m.Count(fmt.Sprintf("bodysize.%d", len(body)), 1)
+				switch {
+				case pv != nil:
+					m.Violate("C05:roundtrip:server-panic", d, "httpx.Parse panicked: %v", pv)
+				case perr != nil:
+					m.Count("bodysize.refused", 1)
+					if len(body) <= 1<<10 {
+						// around the limit itself only "refused or exact" is asserted; a small body must simply load
+						m.Violate("C05:httpx-body-size:valid-rejected", d, "a 1 KiB body is refused: %v", perr)
+					}
+				default:
+					m.Count("bodysize.accepted", 1)
+					if fd := g.Audit(shape, got, full, g.AuditOpt{}); fd != nil {
+						det := fd.Detail
+						if len(det) > 600 {
+							det = det[:600] + "…"
+						}
+						m.Violate("C05:httpx-body-size:"+strings.TrimPrefix(fd.Sig, "C05:"), d, "accepted, but the struct does not hold what the body says: %s\nsize=%v sort=%v tags=%v", det, got.Elem().Field(0), got.Elem().Field(1), got.Elem().Field(2))
+					}
+				}
+			}
+		}
+	}
+	m.Sample(map[string]any{"limit": limit, "requests": idx})
 }
